@@ -44,7 +44,7 @@ MGrow == [op |-> "memory.grow"]
      1  g : (i32, i32) -> i32   generated; declared locals (i32, i64)
      2  h : (i32) -> i32        helper: adds global 0 to its argument and increments global 0
      3  k : () -> ()            helper: global1 := global1 + 1
-   Types: 0 (i32,i32)->i32, 1 (i32)->i32, 2 ()->(), 3 (i32)->i32 (duplicate of 1).  Table: [2, hole, 3, 1].  Globals: i32 7, i64 0.
+   Types: 0 (i32,i32)->i32, 1 (i32)->i32, 2 ()->(), 3 (i32)->i32 (duplicate of 1).  Table: [2, hole, 3, 1].  Globals: i32 7, i64 -5 (negative: exercises the signed encoding in stored artifacts), immutable i32 3.  h declares two i32 locals (one group of multiplicity 2).
    Memory: 1 page, at most 2.  Data at 0: 01 02 03 04 05 06 07 80 FF. *)
 TypesT == << [params |-> <<2, 2>>, results |-> <<2>>], [params |-> <<2>>, results |-> <<2>>], [params |-> <<>>, results |-> <<>>],
             [params |-> <<2>>, results |-> <<2>>] >>   \* type 3 is structurally equal to type 1 (indirect calls compare types structurally)
@@ -61,9 +61,9 @@ TemplateT ==
   [types |-> TypesT,
    funcs |-> << [ty |-> 0, locals |-> <<>>, body |-> WrapperBody, host |-> FALSE, name |-> "f"],
                 [ty |-> 0, locals |-> <<2, 4>>, body |-> <<>>, host |-> FALSE, name |-> "g"],
-                [ty |-> 1, locals |-> <<>>, body |-> HBody, host |-> FALSE, name |-> "h"],
+                [ty |-> 1, locals |-> <<2, 2>>, body |-> HBody, host |-> FALSE, name |-> "h"],
                 [ty |-> 2, locals |-> <<>>, body |-> KBody, host |-> FALSE, name |-> "k"] >>,
-   globals |-> << [t |-> 2, mut |-> TRUE, init |-> I32(7)], [t |-> 4, mut |-> TRUE, init |-> I64(0)],
+   globals |-> << [t |-> 2, mut |-> TRUE, init |-> I32(7)], [t |-> 4, mut |-> TRUE, init |-> I64(-5)],
                   [t |-> 2, mut |-> FALSE, init |-> I32(3)] >>,
    pages |-> 1, maxPages |-> 2,
    table |-> <<2, -1, 3, 1>>,
@@ -80,7 +80,7 @@ TemplateH ==
      !.funcs = << [ty |-> 1, locals |-> <<>>, body |-> <<>>, host |-> TRUE, name |-> "hostf"],
                   [ty |-> 0, locals |-> <<>>, body |-> WrapperBodyH, host |-> FALSE, name |-> "f"],
                   [ty |-> 0, locals |-> <<2, 4>>, body |-> <<>>, host |-> FALSE, name |-> "g"],
-                  [ty |-> 1, locals |-> <<>>, body |-> HBody, host |-> FALSE, name |-> "h"],
+                  [ty |-> 1, locals |-> <<2, 2>>, body |-> HBody, host |-> FALSE, name |-> "h"],
                   [ty |-> 2, locals |-> <<>>, body |-> KBody, host |-> FALSE, name |-> "k"] >>,
      !.table = <<3, -1, 4, 2>>]
 HostQT == << I32(5), I32(0), I32(7), I32(1), I32(-1), I32(2) >>
@@ -126,7 +126,7 @@ AlphabetOf ==
     [] Cfg = "brif" -> AlphaBrIf
     [] Cfg = "brif2" -> AlphaBrIf2
     [] Cfg = "mem" -> AlphaMem [] Cfg = "call" -> AlphaCall [] Cfg = "i64" -> AlphaI64
-    [] Cfg \in {"witness", "alu", "struct"} -> {}
+    [] Cfg \in {"witness", "alu", "struct", "valstruct"} -> {}
     [] Cfg = "val" -> AlphaVal
     [] Cfg = "host" -> AlphaHost
     [] Cfg = "all" -> AlphaCtl \cup AlphaCtl2 \cup AlphaLoop \cup AlphaMem \cup AlphaCall \cup AlphaI64 \cup AlphaBrIf
@@ -189,11 +189,25 @@ StructBodies(dummy) ==
   \cup { c \o << Iff(2) >> \o a \o << Els >> \o b \o << End, LGet(0), Bin(2, "add"), End >> : c \in Conds, a \in VSnip, b \in VSnip }
   \cup { << Blk(2) >> \o a \o c \o << Iff(0) >> \o b \o << End >> \o v \o << End, End >> : c \in Conds, a \in Snip, b \in Snip, v \in VSnip }
 
+(* validation skeletons (C09): two nested frames of every kind, a branch instruction over label lists, values of both
+   types on the stack, and closing code; every combination is classified by the recogniser ValidBody *)
+Frames == { Blk(0), Blk(2), Blk(4), Lop(0), Lop(2), Lop(4) }
+Pre == { << C32(0) >>, << C32(1), C32(0) >>, << C64(1), C32(0) >>, <<>> }
+Brs == { BrTab(<<0>>, 1), BrTab(<<1>>, 0), BrTab(<<0, 1>>, 2), BrTab(<<2>>, 2), BrTab(<<0, 1, 2>>, 0), BrTab(<<3>>, 0), Br(0), Br(1), Br(2), BrIf(0), BrIf(1), Sel, Ret }
+Post == { <<>>, << Drop >>, << C32(5) >>, << C64(5) >> }
+ValBodies(dummy) ==
+  { << f1, f2 >> \o pr \o << br, End >> \o p1 \o << End >> \o p2 \o << End >> : f1 \in Frames, f2 \in Frames, pr \in Pre, br \in Brs, p1 \in Post, p2 \in {<<>>, << C32(5) >>} }
+  \cup { c \o << Iff(bt) >> \o a \o << Els >> \o b \o << End >> \o p2 \o << End >> :
+            c \in {<< C32(1) >>, << C64(1) >>, <<>>}, bt \in {0, 2, 4}, a \in Post, b \in Post, p2 \in {<<>>, << C32(5) >>, << Drop, C32(1) >>} }
+  \cup { c \o << Iff(bt) >> \o a \o << End >> \o p2 \o << End >> : c \in {<< C32(1) >>}, bt \in {0, 2, 4}, a \in Post, p2 \in {<<>>, << C32(5) >>} }
+
 WellTyped(b) == \A i \in 1..Len(b) : (b[i].op = "const" => Len(b[i].v) = b[i].t)
 FixedBodies == IF Cfg = "witness" THEN Witnesses
                ELSE IF Cfg = "struct" THEN {b \in StructBodies(0) : ValidBody(GenCtx, b)}
+               ELSE IF Cfg = "valstruct" THEN ValBodies(0)
                ELSE {b \in ALUBodies(0) : WellTyped(b)}
-FInit == body \in FixedBodies /\ vs = VInit(2) /\ phase = "done"
+(* fixed bodies are classified by the recogniser: valid ones are executed by the reference, invalid ones only carry the verdict *)
+FInit == body \in FixedBodies /\ vs = VInit(2) /\ phase = (IF ValidBody(GenCtx, body) THEN "done" ELSE "bad")
 FSpec == FInit /\ [][UNCHANGED gvars]_gvars
 ArgsT == { <<I32(10), I32(0)>>, <<I32(10), I32(1)>>, <<I32(0), I32(7)>>, <<I32(-1), I32(3)>> }
 =============================================================================
